@@ -64,6 +64,8 @@ impl<T> ChannelSlots<T> {
             Entry::Vacant(entry) => {
                 let (t, u) = make_entry(channel_id)?;
                 entry.insert(t);
+                // the id may have been freed earlier; it is in use again now
+                self.freed_channel_ids.swap_remove(&channel_id);
                 Ok(u)
             }
         }
@@ -90,6 +92,9 @@ impl<T> ChannelSlots<T> {
                 Entry::Vacant(entry) => {
                     let (t, u) = make_entry(channel_id)?;
                     entry.insert(t);
+                    // the id may have been opened explicitly and freed earlier; it is in
+                    // use again now
+                    self.freed_channel_ids.swap_remove(&channel_id);
                     return Ok(u);
                 }
             }
